@@ -28,6 +28,25 @@ FIGS = ('snr_01nm', 'snr', 'osnr_ase_01nm', 'osnr_ase', 'osnr_nli', 'chromatic_d
 
 
 @st.composite
+def _simple_route(draw, truth, src, dst):
+    """a simple ROADM-level route src -> dst as [(link id, direction)], by a generated walk over the ground-truth links"""
+    site, seen, route = src, {src}, []
+    for _ in range(truth['n']):
+        if site == dst:
+            break
+        out = [(lid, 'ab', b) for lid, (a, b) in enumerate(truth['links']) if a == site and b not in seen] + \
+              [(lid, 'ba', a) for lid, (a, b) in enumerate(truth['links']) if b == site and a not in seen]
+        if not out:
+            break
+        direct = [o for o in out if o[2] == dst]
+        lid, d, nxt = draw(st.sampled_from(direct)) if direct and draw(st.booleans()) else draw(st.sampled_from(out))
+        route.append((lid, d))
+        seen.add(nxt)
+        site = nxt
+    return route if site == dst else []
+
+
+@st.composite
 def batch_case(draw):
     saturating = draw(st.booleans())
     si = draw(netgen.si_entry(tx_power='none', power=0))
@@ -63,9 +82,23 @@ def batch_case(draw):
         dst = draw(st.integers(0, truth['n'] - 2))
         if dst >= src:
             dst += 1
-        kind = draw(st.sampled_from(['ordinary', 'ordinary', 'dense', 'dense', 'wide', 'auto', 'blocked-route', 'blocked-mode']))
+        kind = draw(st.sampled_from(['ordinary', 'ordinary', 'dense', 'dense', 'wide', 'auto', 'blocked-route', 'blocked-mode',
+                                     'explicit-line', 'twin-power']))
         r = {'src': src, 'dst': dst, 'kind': kind, 'bidir': draw(st.integers(0, 3)) == 0, 'include': []}
-        if kind == 'ordinary':
+        if kind == 'twin-power' and reqs:
+            # the same request as an earlier one but for the transmitter power: not the same request, never to be merged
+            r = dict(reqs[draw(st.integers(0, len(reqs) - 1))], kind='twin-power',
+                     tx_power_dbm=draw(st.sampled_from([-28.0, -20.0, -10.0])))
+            if r.get('include_line'):
+                r['include_line'] = list(r['include_line'])
+        elif kind in ('twin-power', 'explicit-line'):
+            r.update(mode='m0', spacing=50e9, nch=draw(st.sampled_from([None, 40])))
+            if kind == 'explicit-line':
+                # route named by line elements (first fibre of every link of a generated simple route), LOOSE
+                route = draw(_simple_route(truth, src, dst))
+                r['include_line'] = [[lid, d] for lid, d in route]
+            r['kind'] = 'explicit-line' if kind == 'explicit-line' else 'ordinary'
+        elif kind == 'ordinary':
             r.update(mode='m0', spacing=50e9, nch=draw(st.sampled_from([None, 40, 96])))
         elif kind == 'dense':
             r.update(mode='m1', spacing=37.5e9, nch=draw(st.sampled_from([None, 128, 120])))
@@ -79,11 +112,22 @@ def batch_case(draw):
             r.update(mode='m0', spacing=50e9, nch=None,
                      include=[['roadm', dst, 'STRICT'], ['roadm', src, 'STRICT']])
         eff_nch = r['nch'] if r['nch'] is not None else int((si['f_max'] - si['f_min']) // r['spacing'])
-        key = (src, dst, r['mode'], r['spacing'], eff_nch, tuple(map(tuple, r['include'])))
+        key = (r['src'], r['dst'], r['mode'], r['spacing'], eff_nch, tuple(map(tuple, r['include'])),
+               tuple(map(tuple, r.get('include_line', []))), r.get('tx_power_dbm'))
         if key in seen:
             continue   # identical requests would be aggregated under a joined id
         seen.add(key)
         reqs.append(r)
+        if len(r.get('include_line', [])) >= 2 and draw(st.booleans()):
+            # a bidirectional companion whose return direction runs over the first section of the explicit route
+            lid, d = r['include_line'][0]
+            a, b = truth['links'][lid] if d == 'ab' else truth['links'][lid][::-1]
+            comp = {'src': b, 'dst': a, 'kind': 'ordinary', 'bidir': True, 'include': [], 'mode': 'm0', 'spacing': 50e9,
+                    'nch': 40}
+            ckey = (b, a, 'm0', 50e9, 40, (), (), None)
+            if ckey not in seen:
+                seen.add(ckey)
+                reqs.append(comp)
     n = len(reqs)
     orders = [draw(st.permutations(list(range(n)))) for _ in range(draw(st.integers(1, 3)))]
     subsets = [draw(st.lists(st.integers(0, n - 1), min_size=1, max_size=n, unique=True))
@@ -198,9 +242,11 @@ def _run(case, ctx, sim):
     def rq_json(i):
         r = reqs[i]
         inc = [(f'roadm R{k}', hop) for _, k, hop in r['include']]
+        inc += [(f'fiber L{lid}.{d}.0', 'LOOSE') for lid, d in r.get('include_line', [])]
+        txp = None if r.get('tx_power_dbm') is None else 1e-3 * 10 ** (r['tx_power_dbm'] / 10)
         return services.request_json(i, f"trx R{r['src']}", f"trx R{r['dst']}", trx_type='T0', trx_mode=r['mode'],
                                      spacing=r['spacing'], nb_channel=r['nch'], bidir=r['bidir'], include=inc,
-                                     path_bandwidth=100e9)
+                                     path_bandwidth=100e9, tx_power=txp)
     json0 = copy.deepcopy(network_to_json(network))
     dig0 = net_digest(network)
     designed_gain = {n.uid: n.effective_gain for n in network.nodes() if hasattr(n, 'effective_gain')}
@@ -233,6 +279,9 @@ def _run(case, ctx, sim):
     for order in case['orders']:
         data = {'path-request': [rq_json(i) for i in order]}
         oms, pths, rpths, rqs, dsjn, res = planning(network, equipment, data)
+        if any(not str(r.request_id).isdigit() for r in rqs):
+            ctx.violation('distinct-requests-aggregated', f'order {order}: result ids {[r.request_id for r in rqs]}')
+            return
         got = {int(r.request_id): summarise(r, p, rp) for r, p, rp in zip(rqs, pths, rpths)}
         if sorted(got) != sorted(order):
             ctx.violation('requests-missing-from-result', f'{sorted(got)} vs {sorted(order)}')
